@@ -66,7 +66,7 @@ Definition model_traces : list (string * list string) := [
   ("connState.handle",
      (["defer:func"; "if:r == nil"; "recover"; "seterr:r:EFAULT"; "endif"; "enddefer"; "if:ok"; "delegate:handler.handle(cs)"; "else"; "seterr:r:ENOSYS"; "endif"; "return:"])%list);
   ("doWalk",
-     (["for:range names"; "name:name"; "if:err != nil"; "return:"; "endif"; "endfor"; "if:len(names) == 0"; "wrap:safelyRead:ref"; "delegate:walkOne(nil, ref.file, ref.pathNode, nil, getattr)"; "if:err != nil"; "return:err"; "endif"; "if:!ref.hasParent()"; "if:!newRef.isDeleted()"; "tree:ref.parent.pathNode.nameFor(ref)"; "tree:ref.parent.pathNode.addChild(newRef, ref.parent.pathNode.nameFor(ref))"; "endif"; "incref:ref.parent"; "endif"; "incref:newRef"; "return:nil"; "endwrap"; "if:err != nil"; "return:nil,nil,AttrMask,Attr,err"; "endif"; "return:nil,newRef,valid,attr,nil"; "endif"; "incref:walkRef"; "for:i < len(names)"; "if:!walkRef.mode.IsDir()"; "decref:walkRef"; "return:nil,nil,AttrMask,Attr,EINVAL"; "endif"; "wrap:safelyRead:walkRef"; "if:walkRef.isDeleted()"; "return:ENOENT"; "endif"; "delegate:walkOne(qids, walkRef.file, walkRef.pathNode, names[i : i+1], true)"; "if:err != nil"; "return:err"; "endif"; "tree:walkRef.pathNode.pathNodeFor(names[i])"; "tree:walkRef.pathNode.addChild(newRef, names[i])"; "incref:walkRef"; "return:nil"; "endwrap"; "if:err != nil"; "decref:walkRef"; "return:nil,nil,AttrMask,Attr,err"; "endif"; "endfor"; "return:qids,walkRef,valid,attr,nil"])%list);
+     (["for:range names"; "name:name"; "if:err != nil"; "return:"; "endif"; "endfor"; "if:len(names) == 0"; "if:ref.xattrOf != nil"; "return:nil,nil,AttrMask,Attr,EINVAL"; "endif"; "wrap:safelyRead:ref"; "delegate:walkOne(nil, ref.file, ref.pathNode, nil, getattr)"; "if:err != nil"; "return:err"; "endif"; "if:!ref.hasParent()"; "if:!newRef.isDeleted()"; "tree:ref.parent.pathNode.nameFor(ref)"; "tree:ref.parent.pathNode.addChild(newRef, ref.parent.pathNode.nameFor(ref))"; "endif"; "incref:ref.parent"; "endif"; "incref:newRef"; "return:nil"; "endwrap"; "if:err != nil"; "return:nil,nil,AttrMask,Attr,err"; "endif"; "return:nil,newRef,valid,attr,nil"; "endif"; "incref:walkRef"; "for:i < len(names)"; "if:!walkRef.mode.IsDir()"; "decref:walkRef"; "return:nil,nil,AttrMask,Attr,EINVAL"; "endif"; "wrap:safelyRead:walkRef"; "if:walkRef.isDeleted()"; "return:ENOENT"; "endif"; "delegate:walkOne(qids, walkRef.file, walkRef.pathNode, names[i : i+1], true)"; "if:err != nil"; "return:err"; "endif"; "tree:walkRef.pathNode.pathNodeFor(names[i])"; "tree:walkRef.pathNode.addChild(newRef, names[i])"; "incref:walkRef"; "return:nil"; "endwrap"; "if:err != nil"; "decref:walkRef"; "return:nil,nil,AttrMask,Attr,err"; "endif"; "endfor"; "return:qids,walkRef,valid,attr,nil"])%list);
   ("fidRef.DecRef",
      (["atomic:AddInt64(&f.refs, -1)"; "if:atomic.AddInt64(&f.refs, -1) == 0"; "if:f.xattrOf != nil"; "decref:f.xattrOf"; "else"; "call:f.file.Close()"; "endif"; "if:err != nil"; "endif"; "if:f.parent != nil"; "tree:f.parent.pathNode.removeChild(f)"; "decref:f.parent"; "if:pErr != nil"; "endif"; "endif"; "return:errors.Join(errs...)"; "endif"; "return:nil"])%list);
   ("fidRef.safelyGlobal",
